@@ -347,6 +347,17 @@ Definition spec_packet_data (m : mode) (tm : tmap) (bytes : list byte)
     end
   else None.
 
+(* the message a byte string denotes under a template state; None: it denotes none (error) *)
+Definition spec_packet (m : mode) (reg : list ie) (tm : tmap) (bytes : list byte) : option msg :=
+  match spec_template m reg bytes with
+  | Some (h, tid, es) => Some (TemplateMsg h tid es)
+  | None =>
+      match spec_packet_data m tm bytes with
+      | Some (h, tid, rs) => Some (DataMsg h tid rs)
+      | None => None
+      end
+  end.
+
 (* ---- safety of a template state: what makes the per-type decoders index in range ---- *)
 Definition fixed_width (d : dtype) : option N :=
   match d with
